@@ -174,7 +174,7 @@ def parse_N_list(out):
     return res
 
 
-def replay_cases(prop, corr_module, cases, shard=200, timeout=900):
+def replay_cases(prop, corr_module, cases, shard=200, timeout=900, group_imports=None):
     """cases: list of dicts with id, group, args, exp. Returns (mismatch_ids, errors, n_shards)."""
     os.makedirs(GEN, exist_ok=True)
     for f in os.listdir(GEN):
@@ -187,7 +187,8 @@ def replay_cases(prop, corr_module, cases, shard=200, timeout=900):
     for g, cs in sorted(by_group.items()):
         for k in range(0, len(cs), shard):
             name = "Cases_%s_%s_%d.v" % (prop, re.sub(r"\W", "_", g), k // shard)
-            body = ["From Sq Require Import Base.Corr %s." % corr_module, "Open Scope N_scope.",
+            body = ["From Sq Require Import Base.Corr %s." % corr_module] + \
+                   ([group_imports(g)] if group_imports else []) + ["Open Scope N_scope.",
                     "Definition cases : list case_t_%s := [" % re.sub(r"\W", "_", g)]
             body.append(";\n".join("(%d, %s, %s)" % (c["id"], c["args"], c["exp"]) for c in cs[k:k + shard]))
             body.append("].")
